@@ -246,8 +246,6 @@ class Periodogram(FourierSpectrum):
                              NFFT=self.NFFT, scale_by_freq=self.scale_by_freq,
                              detrend=self.detrend)
         self.psd = psd
-        if self.scale_by_freq is True:
-            self.scale()
         return self
 
     def _str_title(self):
